@@ -1293,9 +1293,12 @@ func (db *DB) WriteJournalAt(ctx context.Context, f *os.File, data []byte, offse
 		return ErrReadOnlyReplica
 	}
 
-	// Set the page size on initial journal header write.
-	if offset == 0 && len(data) >= SQLITE_JOURNAL_HEADER_SIZE && db.pageSize == 0 {
-		db.pageSize = binary.BigEndian.Uint32(data[24:])
+	// Set the page size on initial journal header write. A deleted database
+	// keeps its old page size until it is recreated, possibly with another one.
+	if offset == 0 && len(data) >= SQLITE_JOURNAL_HEADER_SIZE && (db.pageSize == 0 || db.PageN() == 0) {
+		if pageSize := binary.BigEndian.Uint32(data[24:]); ltx.IsValidPageSize(pageSize) {
+			db.pageSize = pageSize
+		}
 	}
 
 	dbJournalWriteCountMetricVec.WithLabelValues(db.name).Inc()
@@ -2313,6 +2316,9 @@ func (db *DB) Drop(ctx context.Context) (err error) {
 	// Reset database & WAL information.
 	db.mode.Store(DBModeRollback)
 	db.pageN.Store(0)
+	db.chksums.mu.Lock()
+	db.chksums.pages, db.chksums.blocks = nil, nil
+	db.chksums.mu.Unlock()
 	db.wal.offset = 0
 	db.wal.chksum1 = 0
 	db.wal.chksum2 = 0
@@ -2536,8 +2542,8 @@ func (db *DB) ApplyLTXNoLock(path string, fatalOnError bool) (retErr error) {
 		return fmt.Errorf("decode ltx header: %s", err)
 	}
 	hdr = dec.Header()
-	if db.pageSize == 0 {
-		db.pageSize = dec.Header().PageSize
+	if db.pageSize == 0 || (db.PageN() == 0 && dec.Header().Commit > 0) {
+		db.pageSize = dec.Header().PageSize // unknown, or recreated after a deletion
 	}
 
 	// Delete database files if this has a zero "commit" field.
